@@ -11,7 +11,8 @@ grep -qi -- "-race" $mut/meta.txt 2>/dev/null && XF="$XF -race"
 grep -qi -- "tags purego\|-tags=purego" $mut/meta.txt 2>/dev/null && XF="$XF -tags purego"
 cd $wt || exit 2
 # the worktree may have been disturbed (git stash is shared between worktrees): rebuild its state from patch.diff
-git checkout -q -- . && git apply $mut/patch.diff || { echo "patch.diff does not apply to a clean worktree"; exit 2; }
+# ... on top of /repo's present HEAD (repairs made since the worktree was created)
+git checkout -q -- . && git checkout -q --detach "$(git -C /repo rev-parse HEAD)" && git apply $mut/patch.diff || { echo "patch.diff does not apply to a clean worktree"; exit 2; }
 echo "== $id: patch"; git diff --stat | tail -n 3
 echo "== build+tests with patch"; (go build ./... && go test -vet=off -count=1 . ./proto/... ./compress/... ./chpool/... 2>&1 | grep -v "no test files" | tail -n 6)
 cp $mut/demo_test.go $wt/$demodir/zz_demo_test.go
